@@ -1,9 +1,9 @@
 """C04 - affinity limits hold at every level of the topology."""
 from mc.props import _cellprop
-from mc.worlds import cellcfg, cellmon
+from mc.props import _masterprop
+from mc.worlds import cellcfg, cellmon, mastercfg
 
 BUDGET = {'quick': 240, 'thorough': 2400}
-HASH_INSENSITIVE = True     # World A has no string-hash dependent iteration
 
 
 def _k3(limits):
@@ -30,11 +30,38 @@ LIMITS = {
 }
 
 
+def _m6():
+    """World B: limits through manifests, cell buckets inserted / removed
+    (Loader.load_cell -> reset_children re-adds the counters), restarts."""
+    cfg = mastercfg.m1()
+    cfg['idgroups'] = {}
+    cfg['cellmonitors'] = [cellmon.mon_c04]
+    lim = {'rack': 1, 'cell': 2}
+    cfg['templates'] = {
+        'la': {'memory': '3M', 'cpu': '3%', 'disk': '3M', 'affinity': 'lim',
+               'affinity_limits': lim},
+        'lb': {'memory': '6M', 'cpu': '4%', 'disk': '6M', 'affinity': 'lim',
+               'affinity_limits': lim, 'priority': 70},
+        'hi': {'memory': '10M', 'cpu': '10%', 'disk': '10M',
+               'affinity': 'c', 'priority': 100},
+    }
+    cfg['allow_nocycle'] = False
+    cfg['events'] = mastercfg.ev(
+        ('app+', 'la'), ('app+', 'lb'), ('app+', 'hi'), ('app-', 0),
+        ('cell-', 'rack:1'), ('cell+', 'rack:1'),
+        ('cell-', 'rack:0'), ('cell+', 'rack:0'),
+        ('pres-', 's0'), ('pres+', 's0', 0), ('noop',), ('restart',),
+    )
+    return cfg
+
+
 def configs(ctx):
     if ctx.quick:
         return [('K3-' + k, _k3(LIMITS[k]), 4, 0)
-                for k in ('rack1', 'pod1', 'cell2', 'server1pod2')]
-    return [('K3-' + k, _k3(v), 6, 0) for k, v in LIMITS.items()]
+                for k in ('rack1', 'pod1', 'cell2', 'server1pod2')] + \
+            [('M6', _m6(), 4, 0, _masterprop.MasterSpec)]
+    return [('K3-' + k, _k3(v), 6, 0) for k, v in LIMITS.items()] + \
+        [('M6', _m6(), 6, 0, _masterprop.MasterSpec)]
 
 
 RULE = ('BFS over histories with capacity pressure on a 2x2 cell, affinity '
